@@ -166,7 +166,7 @@ PROPS["C14"] = {
     "rule": "which archives are refused at open is the reader model's decision (tryinit suite: hostile-but-checksummed, flipped, truncated headers, model vs Archive::try_init); the full matrix {clone, compress} x output {absent, regular file, block device too small / large enough (hook)} x "
             "{--force-create, --seed-output, neither} x archive {valid, invalid, pinned checksum mismatch, prefix pin, empty pin, "
             "matching pin}: exit status, content, existence before/after, extra files; exhaustive. non-trivial = every cell",
-    "assumes": ["POSIX open(2) semantics for O_CREAT/O_EXCL/O_TRUNC", "the is_block_dev hook (cfg oll3_bita_verif) stands for a real device"],
+    "assumes": ["POSIX open(2) semantics for O_CREAT/O_EXCL/O_TRUNC (compared with the real OpenOptions on regular paths by the openopts lines of clirefuse; assumed for block devices)", "the is_block_dev hook (cfg oll3_bita_verif) stands for a real device"],
     "trusted_base": [],
     "level_text": "Theorems (Coq) over the command model whose step order and OpenOptions flag expressions are regenerated from the "
                   "source on every run: every refusal (existing output without overwrite/in-place, invalid archive, pinned header "
